@@ -70,7 +70,7 @@ MANIFEST = dict(
 
 IMPORTS = ['Coq.NArith.NArith', 'Coq.ZArith.ZArith', 'Coq.Lists.List', 'Coq.Bool.Bool', 'SV.Fmt.DmxCodes', 'SV.Fmt.DmxBin',
            'SV.Fmt.DmxKv1', 'SV.Fmt.DmxScalar', 'SV.Text.Str', 'SV.Text.Tokenizer', 'SV.Text.TokGen', 'SV.Fmt.DmxKv2',
-           'SV.Num.Dec6', 'SV.Fmt.DmxValText', 'SV.Gen.DmxCodes_gen', 'SV.Fmt.DmxKv2Inst']
+           'SV.Num.Dec6', 'SV.Fmt.DmxValText', 'SV.Fmt.DmxHeader', 'SV.Gen.DmxCodes_gen', 'SV.Fmt.DmxKv2Inst']
 PRE_BIN = '''Import ListNotations. Open Scope N_scope.
 Definition idenc (_ : enc) (s : str) : bytes := s.
 Definition iddec (_ : enc) (b : bytes) : option str := Some b.
@@ -1239,6 +1239,9 @@ OBLIGATIONS = {
     'kv2_element_and_string_are_types': 'kv2_element_and_string_are_types',
     'kv2_literals_need_no_escape': 'kv2_literals_need_no_escape',
     'kv2_text_premises': 'vtnames_ok gen_tables gen_fold gen_vtnames',
+    'unicode_modes_binary_reader_codec_is_writer_codec': 'hdr_bin_ok gen_hdr',
+    'unicode_modes_kv2_reader_codec_is_writer_codec': 'hdr_kv2_ok gen_hdr',
+    'unicode_modes_marked_mode_self_describing_ascii_stays_ascii': 'hdr_modes_ok gen_hdr',
     'kv2_float_text_six_places_stripped': 'float_text_cfg_ok gen_float_fmt',
     'kv2_vector_text_components_in_order': 'vec_text_components_ok gen_vec_text_written gen_vec_text_read',
     'kv2_color_text_components': 'color_text_ok gen_color_text_written gen_color_text_read',
@@ -1263,6 +1266,9 @@ EXPLAIN = {
     'correspondence:kv2-flat-text': ['kv2', ''],
     'correspondence:kv2-nested-text': ['kv2', ''],
     'correspondence:kv2-value-text': ['kv2', ''],
+    'instance:unicode_modes_binary_reader_codec_is_writer_codec': ['binary', 'nonascii'],
+    'instance:unicode_modes_kv2_reader_codec_is_writer_codec': ['kv2', 'nonascii'],
+    'instance:unicode_modes_marked_mode_self_describing_ascii_stays_ascii': ['', 'nonascii'],
     'instance:kv2_float_text_six_places_stripped': ['kv2', 'float'],
     'instance:kv2_vector_text_components_in_order': ['kv2', ''],
     'instance:kv2_color_text_components': ['kv2', 'color'],
